@@ -2,6 +2,7 @@
 # usage: harness/regress_mutants.sh [seeded dirs...]   (default: all of seeded/C*)
 # For every kept seeded defect: scratch worktree of /repo's HEAD under /tmp, apply its patch, run the check of its
 # property against it (VERIF_REPO), print one line, remove the worktree. /repo itself is never touched.
+# SEEDS="0 1 2" runs several seeds per defect (default: 0).
 # A seeded defect must be reported (exit 1 with a VIOLATION line); "concrete" = with a failing input.
 cd /verif || exit 2
 LIST=${*:-$(ls -d seeded/C*)}
@@ -11,11 +12,13 @@ for d in $LIST; do
   wt=/tmp/regress_$name
   git -C /repo worktree add -q --detach $wt HEAD 2>/dev/null || { echo "$name worktree-failed"; continue; }
   if git -C $wt apply /verif/$d/patch.diff 2>/dev/null; then
-    out=$(VERIF_REPO=$wt ./check $pid ${BUILD:---no-build} 2>&1)
+    for seed in ${SEEDS:-0}; do
+    out=$(VERIF_REPO=$wt VERIF_SEED=$seed ./check $pid ${BUILD:---no-build} 2>&1)
     rc=$?
     conc=$(echo "$out" | grep "^VIOLATION" | grep -vc "no-failing-input-found")
     nf=$(echo "$out" | grep "^VIOLATION" | grep -c "no-failing-input-found")
-    echo "$name check=$pid exit=$rc concrete=$conc no-failing-input=$nf | $(echo "$out" | grep '^VIOLATION' | grep -v no-failing | head -1 | cut -c1-160)"
+    echo "$name check=$pid seed=$seed exit=$rc concrete=$conc no-failing-input=$nf | $(echo "$out" | grep '^VIOLATION' | grep -v no-failing | head -1 | cut -c1-160)"
+    done
   else
     echo "$name patch-does-not-apply (the defect's code was changed by a later fix: commit)"
   fi
